@@ -147,6 +147,8 @@ def pureEval (line : String) : String :=
     | .nack => "nack"
     | .secs k => "secs " ++ toString k
   | ["round", t] => toString (roundDeadline (parseNat t))
+  | ["capacity", mx, backlog] => toString (pullCount (parseNat mx) (parseNat backlog))     -- messages one Pull turn hands out
+  | ["ackdl.eff", n] => toString (effAckDeadlineSecs (parseInt n))
   | ["mods", now, ids, secs] =>
     let idbs := (splitList ids ',').map bytesOfHex
     if idbs.any (fun b => !validUtf8 b) then "skip" else
